@@ -23,7 +23,7 @@ REQUIRED = ["payload_only_in_payload_msg", "private_payload_release_sound", "dec
             "connection_authenticated_only_via_authenticator", "fact_authenticate_call_sites",
             "created_private_has_full_pal", "fact_encrypt_and_authenticator_stateless",
             "fact_payload_presence_guards", "public_tx_admitted_only_with_payload",
-            "offloaded_certificate_needs_exactly_one_value", "fact_offloading_header_checks", "authenticated_with_proven_certificate", "decryptPAL_depends_only_on_keys_and_header", "header_prefix_does_not_determine_list", "fact_sent_envelopes_fresh", "fact_decryptPAL_stateless"]
+            "offloaded_certificate_needs_exactly_one_value", "fact_offloading_header_checks", "offloaded_identity_is_this_streams_header", "offloaded_streams_independent", "fact_offloading_authinfo_overwritten", "authenticated_with_proven_certificate", "decryptPAL_depends_only_on_keys_and_header", "header_prefix_does_not_determine_list", "fact_sent_envelopes_fresh", "fact_decryptPAL_stateless"]
 
 
 def run(ctx):
@@ -225,7 +225,7 @@ def run(ctx):
     # ---- oracle 5: the real server TLS configuration (newServerTLSConfig) over a real crypto/tls handshake: a client certificate that does
     # not chain to the trust store (self-signed, other CA, none) is never accepted, in TLS 1.2 and 1.3
     t_bad, tls_lines = 0, 0
-    if not ctx.replay or '"op":"tlsclient"' in open(ctx.replay).read(4096) or '"op":"cmauth"' in open(ctx.replay).read(4096) or '"op":"offload"' in open(ctx.replay).read(4096):
+    if not ctx.replay or '"op":"tlsclient"' in open(ctx.replay).read(4096) or '"op":"cmauth"' in open(ctx.replay).read(4096) or '"op":"offload' in open(ctx.replay).read(4096):
         b3 = ctx.go_test_binary(PKG3, HARNESS3, "c15tls")
         if b3 is None:
             ctx.oblige("harness-builds:grpc.newServerTLSConfig", False, ctx.harness_error[-1200:])
@@ -240,6 +240,21 @@ def run(ctx):
                 tls_lines = len(impl3)
                 for k, l in enumerate(impl3):
                     j = json.loads(ops3[k])
+                    if j["op"] == "offloadseq":
+                        # several streams on ONE connection share one *peer.Peer: every stream must be handled with the certificate of ITS OWN header
+                        owner = {"victim": "victim.example.org", "proxy": "attacker.example", "third": "third.example"}
+                        want = [owner.get(st[0], "refused") if len(st) == 1 else "refused" for st in j["streams"]]
+                        got = l[len("offloadseq ["):-1].split()
+                        if got != want:
+                            t_bad += 1
+                            if any("offloaded-stream" in v[1] for v in ctx.violations):
+                                continue
+                            k_bad = next((x for x in range(min(len(got), len(want))) if got[x] != want[x]), 0)
+                            ctx.violation("C15:offloaded-stream-authenticated-with-another-streams-certificate",
+                                          f"tlsOffloadingAuthenticator.intercept on streams sharing one connection (*peer.Peer; initial AuthInfo '{j['pre']}') with header values {j['streams']}: "
+                                          f"stream {k_bad} carries the certificate of {want[k_bad]} but its handler authenticates with {got[k_bad]} (all: {got}) — a peer claiming that node's DID "
+                                          "is marked authenticated and gets its private payloads", "offloadseq.jsonl", ops3[k])
+                        continue
                     if j["op"] == "offload":
                         # TLS offloading interceptor: a certificate is taken over only from EXACTLY ONE header value that holds one certificate
                         okv = len(j["values"]) == 1 and j["values"][0] in ("victim", "proxy")
